@@ -104,7 +104,7 @@ theorem finish_get {p : Prims} {cfg : Config} {autosort : Bool} {ty : String} {d
   -- step 1: autosort
   have names1 : vs1.map (·.1) = vs0.map (·.1) ∧
       ∀ n w, Val.get vs0 n = some w → (autosort = false ∨ isAtom w = true) → Val.get vs1 n = some w := by
-    rcases h1 with ⟨_, rfl⟩ | ⟨hs, t, hsort⟩
+    rcases h1 with ⟨_, rfl⟩ | ⟨hs, -, t, hsort⟩
     · exact ⟨rfl, fun _ _ hg _ => hg⟩
     · obtain ⟨vs', hv', hn', hatoms, -⟩ := sort_effect hfind habs hsort
       simp only [Val.struct.injEq] at hv'
@@ -191,43 +191,703 @@ theorem create_holds_described {p : Prims} {cfg : Config} (hS : schemaOk cfg.sch
 
 /-! ### the forced network, the type constants -/
 
-theorem mem_withNetwork {cfg : Config} {desc : List (String × DVal)} {key : String} {dv : DVal}
-    (hmem : (key, dv) ∈ desc) (hk : key ≠ "network") : (key, dv) ∈ withNetwork cfg desc := by
-  unfold withNetwork setKey
-  split
-  · rw [List.mem_map]
-    refine ⟨(key, dv), hmem, ?_⟩
-    have : ((key, dv).1 == "network") = false := by simpa using hk
-    simp [this]
-  · exact List.mem_append_left _ hmem
+/-! ### the forced network, the type constants -/
 
-theorem withNetwork_has {cfg : Config} {desc : List (String × DVal)} :
-    ("network", DVal.int cfg.networkId) ∈ withNetwork cfg desc := by
-  unfold withNetwork setKey
+theorem coerce_enum_int_ok {cfg : Config} {top : Bool} {ety : String} {w : Nat} {sg : Bool} {ms : List (String × Int)}
+    {i : Int} {cv : Val} (hfind : cfg.schema.find ety = some (.enum w sg false ms))
+    (h : coerce cfg top true (.ty ety) (.int i) = .ok cv) : cv = .int i ∧ enumAdmits false ms i = true := by
+  rw [coerce_int_eq] at h
+  by_cases hadm : enumAdmits false ms i = true
+  · simp [coerceAtom, ruleOf, hfind, hadm] at h
+    exact ⟨h.symm, hadm⟩
+  · simp [coerceAtom, ruleOf, hfind, hadm] at h
+
+/-- **The network is the facade's.** Whatever a descriptor (a dict: keys pairwise distinct) says under `network`, the
+    member `network` of the created transaction holds the facade's identifier, which is a member of `NetworkType` —
+    unless the descriptor also writes to the private attribute `_network` (see `private_key_accepted`). The two
+    hypotheses on the resolved type hold for every shipped transaction type (`shipped_types_ok`). -/
+theorem create_network_forced {p : Prims} {cfg : Config} (hS : schemaOk cfg.schema = true)
+    {autosort embedded : Bool} {desc : List (String × DVal)} {v : Val}
+    (h : create p cfg autosort embedded desc = .ok v)
+    (hdict : (desc.map (·.1)).Nodup) (hpriv : ∀ kv ∈ desc, kv.1 ≠ "_network")
+    (hnet : ∀ ty d, resolve cfg embedded (withNetwork cfg desc) = .ok (ty, d) →
+      ∃ f ety w sg ms, classify cfg ty d "network" = .member f true ∧ f.name = "network" ∧
+        slotOf f.kind = .ty ety ∧ cfg.schema.find ety = some (.enum w sg false ms) ∧
+        ∃ w0, Val.get (match freshMembers cfg.schema ty with | .ok fresh => fresh | .error _ => []) "network" = some (.int w0))
+    (hauto : computedAfter cfg "network" = false) :
+    ∃ ty vs, v = .struct ty vs ∧ Val.get vs "network" = some (.int cfg.networkId) := by
+  obtain ⟨ty, d, fresh, vs, hr, hf, hv, -, hdesc, -⟩ := create_holds_described hS h
+  obtain ⟨f, ety, w, sg, ms, hcl, hfn, hslot, hfind, w0, hw0⟩ := hnet ty d hr
+  simp only [hf] at hw0
+  obtain ⟨pre, post, hsplit⟩ := List.append_of_mem (withNetwork_has (cfg := cfg) (desc := desc))
+  have hkeys := nodup_split_keys (withNetwork_nodup (cfg := cfg) hdict) hsplit
+  have hothers : ∀ kv ∈ pre ++ post, targetOf cfg ty d true kv.1 ≠ some f.name := by
+    intro kv hkv ht
+    rw [hfn] at ht
+    have hin : kv ∈ withNetwork cfg desc := by
+      rw [hsplit]
+      rcases List.mem_append.1 hkv with h1 | h1
+      · exact List.mem_append_left _ h1
+      · exact List.mem_append_right _ (List.mem_cons_of_mem _ h1)
+    rcases targetOf_keys ht with hk | hk
+    · exact hkeys kv hkv (by rw [hk]; decide)
+    · -- the key is `_network`: it comes from the descriptor itself
+      have hk' : kv.1 = "_network" := by rw [hk]; decide
+      have : (withNetwork cfg desc).map (·.1) = (if desc.any (·.1 == "network") then desc.map (·.1) else desc.map (·.1) ++ ["network"]) :=
+        withNetwork_keys
+      have hmem : kv.1 ∈ (withNetwork cfg desc).map (·.1) := List.mem_map_of_mem hin
+      rw [this] at hmem
+      have hmem' : kv.1 ∈ desc.map (·.1) := by
+        split at hmem
+        · exact hmem
+        · rcases List.mem_append.1 hmem with h1 | h1
+          · exact h1
+          · simp only [List.mem_singleton] at h1
+            rw [hk'] at h1; exact absurd h1 (by decide)
+      rw [List.mem_map] at hmem'
+      obtain ⟨kv', hkv', he⟩ := hmem'
+      exact hpriv kv' hkv' (he.trans hk')
+  obtain ⟨cv, hco, hval⟩ := hdesc pre "network" (.int cfg.networkId) post f true hsplit (by decide) hcl hothers (by rw [hfn]; exact hauto)
+  rw [hslot] at hco
+  obtain ⟨rfl, -⟩ := coerce_enum_int_ok hfind hco
+  refine ⟨ty, vs, hv, ?_⟩
+  rw [hfn] at hval
+  have : stored (Val.get fresh "network") (.int cfg.networkId) = .int cfg.networkId := by simp [stored]
+  rw [this] at hval
+  exact hval (Or.inr rfl)
+
+/-- **Type and version are the constants of the type**: a discriminator member of the factory type (`type`, `version`)
+    that the descriptor does not write to holds the value the concrete type's constructor assigns. -/
+theorem create_type_version_constants {p : Prims} {cfg : Config} (hS : schemaOk cfg.schema = true)
+    {autosort embedded : Bool} {desc : List (String × DVal)} {v : Val}
+    (h : create p cfg autosort embedded desc = .ok v) :
+    ∃ ty d vs, resolve cfg embedded (withNetwork cfg desc) = .ok (ty, d) ∧ v = .struct ty vs ∧
+      ∀ n c, (n, Val.int c) ∈ initializers cfg.schema d → ((initializers cfg.schema d).map (·.1)).Nodup →
+        n ∈ (carrying d).map (·.name) → computedAfter cfg n = false →
+        (∀ kv ∈ withNetwork cfg desc, targetOf cfg ty d true kv.1 ≠ some n) →
+        Val.get vs n = some (.int c) := by
+  obtain ⟨ty, d, fresh, vs, hr, hf, hv, -, -, hothers⟩ := create_holds_described hS h
+  refine ⟨ty, d, vs, hr, hv, ?_⟩
+  intro n c hin hnd hmem hca hnone
+  have hfind := (resolve_struct hS hr).1
+  have := freshMembers_constants hfind hf hnd hin hmem
+  exact hothers n (.int c) hnone hca this (Or.inr rfl)
+
+/-! ### rejection -/
+
+/-- if some entry of the processed descriptor is refused by `copy_to` whatever the state, `create` raises -/
+theorem create_error_of_bad_entry {p : Prims} {cfg : Config} {autosort embedded : Bool} {desc : List (String × DVal)}
+    (key : String) (dv : DVal) (hmem : (key, dv) ∈ withNetwork cfg desc)
+    (hbad : ∀ ty d, resolve cfg embedded (withNetwork cfg desc) = .ok (ty, d) →
+      ∀ st, ∃ e, stepEntry cfg ty d true key dv st = .error e) :
+    ∃ e, create p cfg autosort embedded desc = .error e := by
+  unfold create build
+  cases hr : resolve cfg embedded (withNetwork cfg desc) with
+  | error e => exact ⟨e, rfl⟩
+  | ok r =>
+    obtain ⟨ty, d⟩ := r
+    simp only
+    cases hf : freshMembers cfg.schema ty with
+    | error e => exact ⟨e, rfl⟩
+    | ok fresh =>
+      simp only
+      obtain ⟨e, he⟩ := copyEntries_error_of_bad (withNetwork cfg desc) key dv hmem (hbad ty d hr) { vs := fresh }
+      rw [he]
+      exact ⟨e, rfl⟩
+
+theorem stepEntry_unknown {cfg : Config} {ty : String} {d : StructDef} {key : String} {dv : DVal}
+    (hk : key ≠ "type") (hu : classify cfg ty d key = .unknown) :
+    ∀ st, ∃ e, stepEntry cfg ty d true key dv st = .error e := by
+  intro st
+  unfold stepEntry
+  have : (true && key == "type") = false := by simpa using hk
+  simp only [this, Bool.false_eq_true, if_false, hu]
+  split <;> exact ⟨_, rfl⟩
+
+theorem stepEntry_coerce_error {cfg : Config} {ty : String} {d : StructDef} {key : String} {dv : DVal} {f : Field}
+    {hinted : Bool} {e0 : E} (hk : key ≠ "type") (hc : classify cfg ty d key = .member f hinted)
+    (he : coerce cfg true hinted (slotOf f.kind) dv = .error e0) :
+    ∀ st, ∃ e, stepEntry cfg ty d true key dv st = .error e := by
+  intro st
+  unfold stepEntry
+  have : (true && key == "type") = false := by simpa using hk
+  simp only [this, Bool.false_eq_true, if_false, hc, he]
+  split <;> exact ⟨_, rfl⟩
+
+/-- a key for which `hasattr(instance, key)` is false -/
+theorem classify_unknown_of_not_attr {cfg : Config} {ty : String} {d : StructDef} {key : String}
+    (h : key ∉ attrNames cfg ty d) : classify cfg ty d key = .unknown := by
+  unfold attrNames at h
+  simp only [List.mem_append, not_or] at h
+  obtain ⟨⟨⟨h1, h2⟩, h3⟩, h4⟩ := h
+  unfold classify
   split
-  · rename_i hany
-    rw [List.any_eq_true] at hany
-    obtain ⟨kv, hkv, hk⟩ := hany
+  · rename_i f hf
+    exfalso; apply h1
     rw [List.mem_map]
-    exact ⟨kv, hkv, by simp [hk]⟩
-  · simp
+    exact ⟨f, List.mem_of_find?_eq_some hf, by simpa using List.find?_some hf⟩
+  · split
+    · rename_i f hf
+      exfalso; apply h2
+      rw [List.mem_map]
+      exact ⟨f, List.mem_of_find?_eq_some hf, by simpa using List.find?_some hf⟩
+    · split
+      · rename_i hsz
+        exfalso; apply h3
+        have : key = "size" := by simpa using hsz
+        simp [this]
+      · split
+        · rename_i hc
+          exfalso; apply h4
+          simpa using hc
+        · rfl
 
-theorem withNetwork_network_value {cfg : Config} {desc : List (String × DVal)} {dv : DVal}
-    (hmem : ("network", dv) ∈ withNetwork cfg desc) : dv = .int cfg.networkId := by
-  unfold withNetwork setKey at hmem
-  split at hmem
-  · rw [List.mem_map] at hmem
-    obtain ⟨kv, -, hkv⟩ := hmem
-    split at hkv
-    · cases hkv; rfl
-    · rename_i hne
-      rw [hkv] at hne
-      simp at hne
-  · rename_i hany
-    rcases List.mem_append.1 hmem with hin | hin
-    · exfalso; apply hany
-      rw [List.any_eq_true]
-      exact ⟨_, hin, by simp⟩
-    · simp at hin; exact hin
+/-- **Unknown members are rejected.** A descriptor with a key (other than `type`, and `network`, which the factory
+    overwrites) that names no attribute of the class the descriptor names is refused. -/
+theorem unknown_key_rejected {p : Prims} {cfg : Config} {autosort embedded : Bool} {desc : List (String × DVal)}
+    {key : String} {dv : DVal} (hmem : (key, dv) ∈ desc) (hk : key ≠ "type") (hn : key ≠ "network")
+    (hu : ∀ ty d, resolve cfg embedded (withNetwork cfg desc) = .ok (ty, d) → key ∉ attrNames cfg ty d) :
+    ∃ e, create p cfg autosort embedded desc = .error e :=
+  create_error_of_bad_entry key dv (mem_withNetwork hmem hn)
+    (fun ty d hr => stepEntry_unknown hk (classify_unknown_of_not_attr (hu ty d hr)))
+
+/-- **Computed members are rejected**: any key ending in `_computed`. -/
+theorem computed_key_rejected {p : Prims} {cfg : Config} {autosort embedded : Bool} {desc : List (String × DVal)}
+    {key : String} {dv : DVal} (hmem : (key, dv) ∈ desc) (hc : endsWith key "_computed" = true) :
+    ∃ e, create p cfg autosort embedded desc = .error e := by
+  have hn : key ≠ "network" := by intro e; rw [e] at hc; exact absurd hc (by decide)
+  have hk : key ≠ "type" := by intro e; rw [e] at hc; exact absurd hc (by decide)
+  apply create_error_of_bad_entry key dv (mem_withNetwork hmem hn)
+  intro ty d _ st
+  unfold stepEntry
+  have : (true && key == "type") = false := by simpa using hk
+  simp only [this, Bool.false_eq_true, if_false, hc, if_true]
+  exact ⟨_, rfl⟩
+
+/-- **Unknown type names are rejected**, with exactly the error `create_by_name` raises. -/
+theorem unknown_type_rejected {p : Prims} {cfg : Config} {autosort embedded : Bool} {desc : List (String × DVal)}
+    {base name : String} (hb : (if embedded then cfg.embBase else some cfg.txBase) = some base)
+    (ht : lookupKey desc "type" = some (.str name)) (hu : createByName cfg.schema base name = none) :
+    create p cfg autosort embedded desc = .error (.unknownType name) := by
+  unfold create build resolve
+  rw [lookupKey_withNetwork (by decide), hb, ht]
+  simp only [hu]
+
+/-- a descriptor without `type` is rejected -/
+theorem missing_type_rejected {p : Prims} {cfg : Config} {autosort embedded : Bool} {desc : List (String × DVal)}
+    {base : String} (hb : (if embedded then cfg.embBase else some cfg.txBase) = some base)
+    (ht : lookupKey desc "type" = none) : create p cfg autosort embedded desc = .error .noType := by
+  unfold create build resolve
+  rw [lookupKey_withNetwork (by decide), hb, ht]
+
+/-- `create_by_name` knows a name exactly when some child of the factory type is called so in snake case -/
+theorem createByName_none_iff (S : Schema) (base name : String) :
+    createByName S base name = none ↔ ∀ c ∈ S.children base, skipEmbedded (snake c.1) ≠ name := by
+  unfold createByName
+  rw [List.getLast?_eq_none_iff, List.filter_eq_nil_iff]
+  constructor
+  · intro h c hc; simpa using h c hc
+  · intro h c hc; simpa using h c hc
+
+/-- **Unknown enum names are rejected**: a `str` for an enum member that is not the lower-case name of a member of the
+    enum (so also every name in upper or mixed case, every prefix, the empty string). -/
+theorem unknown_enum_name_rejected {p : Prims} {cfg : Config} {autosort embedded : Bool} {desc : List (String × DVal)}
+    {key s : String} (hmem : (key, .str s) ∈ desc) (hk : key ≠ "type") (hn : key ≠ "network")
+    (henum : ∀ ty d, resolve cfg embedded (withNetwork cfg desc) = .ok (ty, d) →
+      ∃ f ety w sg ms, classify cfg ty d key = .member f true ∧ slotOf f.kind = .ty ety ∧
+        cfg.schema.find ety = some (.enum w sg false ms) ∧ ∀ m ∈ ms, m.1.toLower ≠ s) :
+    ∃ e, create p cfg autosort embedded desc = .error e := by
+  apply create_error_of_bad_entry key (.str s) (mem_withNetwork hmem hn)
+  intro ty d hr
+  obtain ⟨f, ety, w, sg, ms, hcl, hslot, hfind, hnames⟩ := henum ty d hr
+  apply stepEntry_coerce_error (e0 := .unknownEnumName ety s) hk hcl
+  rw [hslot, coerce_str_eq]
+  simp only [coerceAtom, if_true, ruleOf, hfind, enumByName, Bool.false_eq_true, if_false, nameTable_enum_none hnames]
+
+/-- **Unknown flag names are rejected**: a `str` for a flags member one of whose blank-separated parts is neither
+    `none` nor the lower-case name of a member (so also a doubled or trailing blank, which yields an empty part). -/
+theorem unknown_flag_rejected {p : Prims} {cfg : Config} {autosort embedded : Bool} {desc : List (String × DVal)}
+    {key s : String} (hmem : (key, .str s) ∈ desc) (hk : key ≠ "type") (hn : key ≠ "network")
+    (hflags : ∀ ty d, resolve cfg embedded (withNetwork cfg desc) = .ok (ty, d) →
+      ∃ f ety w sg ms, classify cfg ty d key = .member f true ∧ slotOf f.kind = .ty ety ∧
+        cfg.schema.find ety = some (.enum w sg true ms) ∧
+        ∃ part ∈ s.splitOn " ", part ≠ "none" ∧ ∀ m ∈ ms, m.1.toLower ≠ part) :
+    ∃ e, create p cfg autosort embedded desc = .error e := by
+  apply create_error_of_bad_entry key (.str s) (mem_withNetwork hmem hn)
+  intro ty d hr
+  obtain ⟨f, ety, w, sg, ms, hcl, hslot, hfind, part, hpart, hnone, hnames⟩ := hflags ty d hr
+  obtain ⟨e, he⟩ := flagsByName_error (ty := ety) (table := nameTable true ms) ⟨part, hpart, nameTable_flags_none hnames hnone⟩
+  apply stepEntry_coerce_error (e0 := e) hk hcl
+  rw [hslot, coerce_str_eq]
+  simp only [coerceAtom, if_true, ruleOf, hfind, enumByName, he]
+
+theorem inRange_unsigned_iff (w : Nat) (i : Int) : inRange w false i = true ↔ 0 ≤ i ∧ i < ((256 ^ w : Nat) : Int) := by
+  simp [inRange]
+
+/-- **Out-of-range numbers are rejected** for every member of an integer type with a name (`Amount`, `Timestamp`,
+    `MosaicNonce`, …: all of them have a parser): an `int` outside the range of the type's width and sign. -/
+theorem out_of_range_rejected {p : Prims} {cfg : Config} {autosort embedded : Bool} {desc : List (String × DVal)}
+    {key : String} {i : Int} (hmem : (key, .int i) ∈ desc) (hk : key ≠ "type") (hn : key ≠ "network")
+    (hpod : ∀ ty d, resolve cfg embedded (withNetwork cfg desc) = .ok (ty, d) →
+      ∃ f pty w sg, classify cfg ty d key = .member f true ∧ slotOf f.kind = .ty pty ∧
+        cfg.schema.find pty = some (.int w sg) ∧ inRange w sg i = false) :
+    ∃ e, create p cfg autosort embedded desc = .error e := by
+  apply create_error_of_bad_entry key (.int i) (mem_withNetwork hmem hn)
+  intro ty d hr
+  obtain ⟨f, pty, w, sg, hcl, hslot, hfind, hrange⟩ := hpod ty d hr
+  apply stepEntry_coerce_error (e0 := .outOfRange pty i) hk hcl
+  rw [hslot, coerce_int_eq]
+  simp only [coerceAtom, if_true, ruleOf, hfind, hrange, Bool.false_eq_true, if_false]
+
+/-- … and for a flags or enum member an `int` that is no member value / has undeclared bits (flags: unless it is
+    negative and within `~all_bits`, which Python's `Flag` reads as a complement — a finding, see the harness). -/
+theorem enum_int_rejected {p : Prims} {cfg : Config} {autosort embedded : Bool} {desc : List (String × DVal)}
+    {key : String} {i : Int} (hmem : (key, .int i) ∈ desc) (hk : key ≠ "type") (hn : key ≠ "network")
+    (henum : ∀ ty d, resolve cfg embedded (withNetwork cfg desc) = .ok (ty, d) →
+      ∃ f ety w sg ms, classify cfg ty d key = .member f true ∧ slotOf f.kind = .ty ety ∧
+        cfg.schema.find ety = some (.enum w sg false ms) ∧ enumAdmits false ms i = false) :
+    ∃ e, create p cfg autosort embedded desc = .error e := by
+  apply create_error_of_bad_entry key (.int i) (mem_withNetwork hmem hn)
+  intro ty d hr
+  obtain ⟨f, ety, w, sg, ms, hcl, hslot, hfind, hadm⟩ := henum ty d hr
+  apply stepEntry_coerce_error (e0 := .enumValue ety i) hk hcl
+  rw [hslot, coerce_int_eq]
+  simp only [coerceAtom, if_true, ruleOf, hfind, Bool.false_eq_true, if_false, hadm]
+
+/-- a member of plain integer type (`version`, `divisibility`, `min_approval_delta`, …) has no parser: `create` stores
+    any `int`; the check comes with the integer codec at `serialize()` (`Codec.encInt` is what `Codec.encode` applies to
+    such a member), which refuses the value rather than truncating it. -/
+theorem plain_int_out_of_range_deferred {cfg : Config} {top : Bool} {w : Nat} {sg : Bool} {i : Int}
+    (h : inRange w sg i = false) :
+    coerce cfg top true (.int w sg) (.int i) = .ok (.int i) ∧ encInt w sg i = .error .overflow := by
+  rw [coerce_int_eq]
+  simp [coerceAtom, ruleOf, convertPlace, convert, place, encInt, h]
+
+/-- **Byte strings of the wrong length are rejected** for members whose type has an SDK class (`PublicKey`, `Hash256`, …) -/
+theorem wrong_length_bytes_rejected {p : Prims} {cfg : Config} {autosort embedded : Bool} {desc : List (String × DVal)}
+    {key : String} {b : Bytes} (hmem : (key, .bytes b) ∈ desc) (hk : key ≠ "type") (hn : key ≠ "network")
+    (hsdk : ∀ ty d, resolve cfg embedded (withNetwork cfg desc) = .ok (ty, d) →
+      ∃ f bty n k, classify cfg ty d key = .member f true ∧ slotOf f.kind = .ty bty ∧
+        cfg.schema.find bty = some (.bytes n) ∧ cfg.sdkMapping.find? (·.1 == bty) = some (bty, k) ∧
+        sdkSize cfg k ≠ b.length) :
+    ∃ e, create p cfg autosort embedded desc = .error e := by
+  apply create_error_of_bad_entry key (.bytes b) (mem_withNetwork hmem hn)
+  intro ty d hr
+  obtain ⟨f, bty, n, k, hcl, hslot, hfind, hmap, hlen⟩ := hsdk ty d hr
+  apply stepEntry_coerce_error (e0 := .badLength (sdkSize cfg k) b.length) hk hcl
+  rw [hslot, coerce_bytes_eq]
+  have : (sdkSize cfg k == b.length) = false := by simpa using hlen
+  simp only [coerceAtom, if_true, ruleOf, hfind, hmap, sdkBytesOf, this, Bool.false_eq_true, if_false]
+
+/-! ### autosort -/
+
+theorem sortable_keyed {S : Schema} {d : StructDef} {vs : List (String × Val)} (h : sortable S d vs = true)
+    {f : Field} {elem : String} {m : ArrMode} {al : Nat} {pl : Bool} {key : String}
+    (hf : f ∈ d.fields) (hk : f.kind = .array elem m al pl (some key)) (hc : f.cond = none) :
+    ∃ l, Val.get vs f.name = some (.arr l) := by
+  unfold sortable at h
+  rw [List.all_eq_true] at h
+  have hcar : f ∈ carrying d := by
+    unfold carrying
+    rw [List.mem_filter]
+    exact ⟨hf, by rw [hk]; rfl⟩
+  have := h f hcar
+  rw [hk, hc] at this
+  cases hg : Val.get vs f.name with
+  | none => simp [hg] at this
+  | some v =>
+    cases v with
+    | arr l => exact ⟨l, rfl⟩
+    | int i => simp [hg] at this
+    | bytes b => simp [hg] at this
+    | struct t fs => simp [hg] at this
+    | none => simp [hg] at this
+
+/-- **With automatic sorting on, keyed arrays come out in canonical order.** For every unconditional array member with a
+    sort key, the created transaction holds a list whose keys (the declared comparer, `sortKeyOf`) are ascending; it is
+    `sorted(…)` of what the descriptor produced (a permutation of it, `sortByKey_zip_perm` of `Proofs/Codec/Sort.lean`), and
+    strictly ascending — i.e. acceptable to `serialize()` — exactly when the keys are pairwise distinct
+    (`sortByKey_zip_strict_iff_distinct`). -/
+theorem autosort_canonical {p : Prims} {cfg : Config} (hS : schemaOk cfg.schema = true)
+    {embedded : Bool} {desc : List (String × DVal)} {v : Val}
+    (h : create p cfg true embedded desc = .ok v) :
+    ∃ ty d vs, resolve cfg embedded (withNetwork cfg desc) = .ok (ty, d) ∧ v = .struct ty vs ∧
+      ∀ f elem m al pl key, f ∈ d.fields → lookupField d.fields f.name = some f →
+        f.kind = .array elem m al pl (some key) → f.cond = none → computedAfter cfg f.name = false →
+        ∃ l keys, Val.get vs f.name = some (.arr l) ∧
+          l.mapM (sortKeyOf cfg.schema p.transform elem key) = .ok keys ∧
+          keys.Pairwise (fun a b => keyLe a b = true) := by
+  obtain ⟨ty, d, fresh, st, hr, hf, hc, hfin⟩ := create_ok h
+  obtain ⟨hfind, habs⟩ := resolve_struct hS hr
+  obtain ⟨vs0, vs1, vs2, h0, h1, h2, hv⟩ := finish_ok hfin
+  refine ⟨ty, d, vs2, hr, hv, ?_⟩
+  intro f elem m al pl key hfd hlook hk hcond hca
+  rcases h1 with ⟨hfalse, -⟩ | ⟨-, hsortable, t, hsort⟩
+  · cases hfalse
+  · obtain ⟨l0, hl0⟩ := sortable_keyed hsortable hfd hk hcond
+    obtain ⟨vs', hv', -, -, harr⟩ := sort_effect hfind habs hsort
+    simp only [Val.struct.injEq] at hv'
+    obtain ⟨-, rfl⟩ := hv'
+    obtain ⟨keys0, hkeys0, hget1⟩ := harr f.name l0 f elem m al pl key hl0 hlook hk hcond
+    obtain ⟨keys', hkeys', hsorted⟩ := sortByKey_zip_sorted (sortKeyOf cfg.schema p.transform elem key) l0 keys0 hkeys0
+    refine ⟨_, keys', ?_, hkeys', hsorted⟩
+    -- the id autofill does not touch the array
+    simp only [computedAfter, Bool.or_eq_false_iff, Bool.and_eq_false_iff] at hca
+    cases hi : cfg.idAutofill with
+    | false =>
+      simp only [hi, Bool.false_eq_true, if_false, Except.ok.injEq] at h2
+      subst h2; exact hget1
+    | true =>
+      simp only [hi, if_true] at h2
+      rcases autofillIds_effect h2 with rfl | ⟨i, rfl⟩
+      · exact hget1
+      · have hne : f.name ≠ "id" := by
+          rcases hca.1 with h | h
+          · rw [hi] at h; cases h
+          · simpa using h
+        rw [get_assign_ne _ _ _ _ hne]; exact hget1
+
+/-! ### ids -/
+
+theorem namespaceIdFor_assign_id (p : Prims) (S : Schema) (vs : List (String × Val)) (x : Val) :
+    namespaceIdFor p S (assign vs "id" x) = namespaceIdFor p S vs := by
+  unfold namespaceIdFor
+  rw [get_assign_ne _ _ _ _ (by decide : "registration_type" ≠ "id"),
+    get_assign_ne _ _ _ _ (by decide : "parent_id" ≠ "id"), get_assign_ne _ _ _ _ (by decide : "name" ≠ "id")]
+
+theorem mosaicIdFor_assign_id (p : Prims) (cfg : Config) (vs : List (String × Val)) (x : Val) :
+    mosaicIdFor p cfg (assign vs "id" x) = mosaicIdFor p cfg vs := by
+  unfold mosaicIdFor
+  rw [get_assign_ne _ _ _ _ (by decide : "signer_public_key" ≠ "id"), get_assign_ne _ _ _ _ (by decide : "nonce" ≠ "id")]
+
+/-- **Namespace and mosaic ids are filled in** (symbol). In the created transaction, if `type` is
+    `NAMESPACE_REGISTRATION` the member `id` is `generate_namespace_id(name, parent)` — `namespaceIdFor` reads `name`,
+    `registration_type`, `parent_id` of the transaction itself and applies `Sdk.namespaceId` (`Model/Sdk/Ids.lean`, C13:
+    `namespace_id_def`), with parent 0 unless the registration type is `CHILD`; if `type` is `MOSAIC_DEFINITION` it is
+    `generate_mosaic_id(address of signer_public_key on the facade's network, nonce)` — `mosaicIdFor` applies
+    `Sdk.publicKeyToAddress` (C08) and `Sdk.mosaicId` (C13: `mosaic_id_def`). Whatever the descriptor said under `id`
+    is overwritten. -/
+theorem ids_autofilled {p : Prims} {cfg : Config} (hid : cfg.idAutofill = true)
+    {autosort embedded : Bool} {desc : List (String × DVal)} {v : Val}
+    (h : create p cfg autosort embedded desc = .ok v) :
+    ∃ ty vs, v = .struct ty vs ∧ ∀ t, Val.get vs "type" = some (.int t) → "id" ∈ vs.map (·.1) →
+      (some t = enumMemberValue cfg.schema "TransactionType" "NAMESPACE_REGISTRATION" →
+        ∃ i, namespaceIdFor p cfg.schema vs = .ok i ∧ Val.get vs "id" = some (.int (i : Nat))) ∧
+      (some t ≠ enumMemberValue cfg.schema "TransactionType" "NAMESPACE_REGISTRATION" →
+        some t = enumMemberValue cfg.schema "TransactionType" "MOSAIC_DEFINITION" →
+        ∃ i, mosaicIdFor p cfg vs = .ok i ∧ Val.get vs "id" = some (.int (i : Nat))) := by
+  obtain ⟨ty, d, fresh, st, hr, hf, hc, hfin⟩ := create_ok h
+  obtain ⟨vs0, vs1, vs2, -, -, h2, hv⟩ := finish_ok hfin
+  refine ⟨ty, vs2, hv, ?_⟩
+  intro t ht hmem
+  simp only [hid, if_true] at h2
+  have key : ∀ x, Val.get (assign vs1 "id" x) "type" = Val.get vs1 "type" :=
+    fun x => get_assign_ne _ _ _ _ (by decide)
+  have ht1 : Val.get vs1 "type" = some (.int t) := by
+    rcases autofillIds_effect h2 with rfl | ⟨i, rfl⟩
+    · exact ht
+    · rw [key] at ht; exact ht
+  have hmem1 : "id" ∈ vs1.map (·.1) := by
+    rcases autofillIds_effect h2 with rfl | ⟨i, rfl⟩
+    · exact hmem
+    · rw [names_assign] at hmem; exact hmem
+  unfold autofillIds at h2
+  simp only [ht1] at h2
+  constructor
+  · intro hns
+    have hb : (some t == enumMemberValue cfg.schema "TransactionType" "NAMESPACE_REGISTRATION") = true := by
+      rw [← hns]; simp
+    simp only [hb, if_true] at h2
+    cases hn : namespaceIdFor p cfg.schema vs1 with
+    | error e => simp [hn] at h2
+    | ok i =>
+      simp only [hn, Except.ok.injEq] at h2
+      subst h2
+      exact ⟨i, by rw [namespaceIdFor_assign_id, hn], get_assign_eq _ _ _ hmem1⟩
+  · intro hnns hmd
+    have hb1 : (some t == enumMemberValue cfg.schema "TransactionType" "NAMESPACE_REGISTRATION") = false := by
+      simpa using hnns
+    have hb2 : (some t == enumMemberValue cfg.schema "TransactionType" "MOSAIC_DEFINITION") = true := by
+      rw [← hmd]; simp
+    simp only [hb1, Bool.false_eq_true, if_false, hb2, if_true] at h2
+    cases hn : mosaicIdFor p cfg vs1 with
+    | error e => simp [hn] at h2
+    | ok i =>
+      simp only [hn, Except.ok.injEq] at h2
+      subst h2
+      exact ⟨i, by rw [mosaicIdFor_assign_id, hn], get_assign_eq _ _ _ hmem1⟩
+
+/-- the id of a root registration: parent 0 (explicit form of `namespaceIdFor`) -/
+theorem namespaceIdFor_root {p : Prims} {S : Schema} {vs : List (String × Val)} {rt c : Int} {name : Bytes}
+    (hrt : Val.get vs "registration_type" = some (.int rt))
+    (hc : enumMemberValue S "NamespaceRegistrationType" "CHILD" = some c) (hne : rt ≠ c)
+    (hname : Val.get vs "name" = some (.bytes name)) (hutf : p.validUtf8 name = true) :
+    namespaceIdFor p S vs = match namespaceId p.sha3_256 name 0 with
+      | some i => .ok i
+      | none => .error (.autofill "parent id out of range") := by
+  unfold namespaceIdFor
+  have : (rt == c) = false := by simpa using hne
+  simp [hrt, hc, this, hname, hutf]
+  cases namespaceId p.sha3_256 name 0 <;> rfl
+
+/-- the id of a child registration: the described parent -/
+theorem namespaceIdFor_child {p : Prims} {S : Schema} {vs : List (String × Val)} {c : Int} {name : Bytes} {parent : Nat}
+    (hrt : Val.get vs "registration_type" = some (.int c))
+    (hc : enumMemberValue S "NamespaceRegistrationType" "CHILD" = some c)
+    (hp : Val.get vs "parent_id" = some (.int parent))
+    (hname : Val.get vs "name" = some (.bytes name)) (hutf : p.validUtf8 name = true) :
+    namespaceIdFor p S vs = match namespaceId p.sha3_256 name parent with
+      | some i => .ok i
+      | none => .error (.autofill "parent id out of range") := by
+  unfold namespaceIdFor
+  have hnn : ¬ ((parent : Int) < 0) := by omega
+  simp [hrt, hc, hp, hname, hutf, hnn]
+  cases namespaceId p.sha3_256 name parent <;> rfl
+
+/-! ### leniencies of `copy_to` (findings) -/
+
+/-- `hasattr` is also true for methods, class attributes and reserved / dunder attributes: such a key is accepted
+    (unless its value is a list), and the member state does not change — the descriptor entry is silently ignored, or
+    it breaks the object (`serialize`) without `create` saying so. (Known finding; the property asks for rejection.) -/
+theorem non_member_attribute_key_accepted {cfg : Config} {ty : String} {d : StructDef} {key : String} {dv : DVal} {st : St}
+    (hk : key ≠ "type") (hc : endsWith key "_computed" = false) (hs : classify cfg ty d key = .shadow)
+    (hl : ∀ l, dv ≠ .list l) :
+    ∃ st', stepEntry cfg ty d true key dv st = .ok st' ∧ st'.vs = st.vs := by
+  unfold stepEntry
+  have : (true && key == "type") = false := by simpa using hk
+  simp only [this, Bool.false_eq_true, if_false, hc, hs]
+  cases dv with
+  | list l => exact absurd rfl (hl l)
+  | int i => exact ⟨_, rfl, rfl⟩
+  | str s => exact ⟨_, rfl, rfl⟩
+  | bytes b => exact ⟨_, rfl, rfl⟩
+  | dict kvs => exact ⟨_, rfl, rfl⟩
+  | sdk c b => exact ⟨_, rfl, rfl⟩
+  | codec c v => exact ⟨_, rfl, rfl⟩
+  | none => exact ⟨_, rfl, rfl⟩
+
+/-- the private attribute of a member is accepted as a key too, and then no parsing rule is applied: an object of the
+    member's class is stored as it is (an undocumented alias), anything else is stored raw. (Known finding.) -/
+theorem private_key_accepted {cfg : Config} {ty : String} {d : StructDef} {key : String} {f : Field} {st : St}
+    {cls : String} {v : Val} (hk : key ≠ "type") (hc : endsWith key "_computed" = false)
+    (hp : classify cfg ty d key = .member f false) (hslot : slotOf f.kind = .ty cls) (hnl : ∀ l, v ≠ .arr l) :
+    stepEntry cfg ty d true key (.codec cls v) st = .ok { st with vs := assign st.vs f.name v } := by
+  unfold stepEntry
+  have : (true && key == "type") = false := by simpa using hk
+  simp only [this, Bool.false_eq_true, if_false, hc, hp, hslot]
+  have hco : coerce cfg true false (.ty cls) (.codec cls v) = .ok v := by
+    simp [coerce, coerceAtom, convertPlace, convert, place, fits]
+  rw [hco]
+  cases v with
+  | arr l => exact absurd rfl (hnl l)
+  | int i => rfl
+  | bytes b => rfl
+  | struct t fs => rfl
+  | none => rfl
+
+/-! ### the shipped configurations (regenerated from the sources on every run) -/
+
+/-- what the theorems above assume about a transaction type -/
+def typeOk (cfg : Config) (c : String × StructDef) : Bool :=
+  (match classify cfg c.1 c.2 "network" with
+   | .member f true => f.name == "network" && slotOf f.kind == .ty "NetworkType"
+   | _ => false) &&
+  decide ((initializers cfg.schema c.2).map (·.1) = ["type", "version"]) &&
+  ((initializers cfg.schema c.2).all fun iv =>
+    ((carrying c.2).map (·.name)).contains iv.1 && (match iv.2 with | .int _ => true | _ => false)) &&
+  (match freshMembers cfg.schema c.1 with
+   | .ok fresh => (match Val.get fresh "network" with | some (.int _) => true | _ => false)
+   | _ => false)
+
+/-- … and about a factory configuration: the schema is well formed, `NetworkType` is a plain enum, every transaction
+    type of both entry points is `typeOk`, the rule lists of `_build_rules` name types of the schema (structs for
+    struct parsers, byte arrays with an SDK class of known size for `sdk_type_mapping`), the type converter's target is
+    a byte array of the module, and `create_by_name` has one entry per name -/
+def configOk (cfg : Config) : Bool :=
+  schemaOk cfg.schema &&
+  (match cfg.schema.find "NetworkType" with | some (.enum _ _ false _) => true | _ => false) &&
+  (cfg.schema.children cfg.txBase).all (typeOk cfg) &&
+  (match cfg.embBase with | some b => (cfg.schema.children b).all (typeOk cfg) | none => true) &&
+  (cfg.structRules.all fun n => match cfg.schema.find n with | some (.struct _) => true | _ => false) &&
+  (cfg.arrayRules.all fun n => (cfg.schema.find n).isSome) &&
+  (cfg.sdkMapping.all fun nk => match cfg.schema.find nk.1 with
+    | some (.bytes _) => cfg.sdkClasses.any (·.1 == nk.2)
+    | _ => false) &&
+  (match cfg.schema.find cfg.addressTarget with | some (.bytes _) => true | _ => false) &&
+  decide (((cfg.schema.children cfg.txBase).map fun c => skipEmbedded (snake c.1)).Nodup) &&
+  (match cfg.embBase with
+   | some b => decide (((cfg.schema.children b).map fun c => skipEmbedded (snake c.1)).Nodup)
+   | none => true) &&
+  !computedAfter cfg "network" && !computedAfter cfg "type" && !computedAfter cfg "version"
+
+theorem resolve_child {cfg : Config} {embedded : Bool} {desc : List (String × DVal)} {ty : String} {d : StructDef}
+    (h : resolve cfg embedded desc = .ok (ty, d)) :
+    (ty, d) ∈ cfg.schema.children cfg.txBase ∨ ∃ b, cfg.embBase = some b ∧ (ty, d) ∈ cfg.schema.children b := by
+  obtain ⟨base, name, hb, -, hc⟩ := resolve_ok h
+  cases embedded with
+  | false =>
+    simp only [Bool.false_eq_true, if_false, Option.some.injEq] at hb
+    subst hb; left; exact createByName_mem hc
+  | true =>
+    simp only [if_true] at hb
+    right; exact ⟨base, hb, createByName_mem hc⟩
+
+theorem configOk_type {cfg : Config} (hcfg : configOk cfg = true) {embedded : Bool} {desc : List (String × DVal)}
+    {ty : String} {d : StructDef} (h : resolve cfg embedded desc = .ok (ty, d)) : typeOk cfg (ty, d) = true := by
+  simp only [configOk, Bool.and_eq_true] at hcfg
+  obtain ⟨⟨⟨⟨⟨⟨⟨⟨⟨⟨⟨⟨-, -⟩, htx⟩, hemb⟩, -⟩, -⟩, -⟩, -⟩, -⟩, -⟩, -⟩, -⟩, -⟩ := hcfg
+  rcases resolve_child h with hc | ⟨b, hb, hc⟩
+  · exact List.all_eq_true.1 htx _ hc
+  · rw [hb] at hemb
+    exact List.all_eq_true.1 hemb _ hc
+
+/-- `create_network_forced` for a configuration that passes `configOk` (in particular the shipped ones): for every
+    dict descriptor without the key `_network`, whatever it says under `network`, the created transaction carries the
+    facade's network identifier. -/
+theorem create_network_forced_of_configOk {p : Prims} {cfg : Config} (hcfg : configOk cfg = true)
+    {autosort embedded : Bool} {desc : List (String × DVal)} {v : Val}
+    (h : create p cfg autosort embedded desc = .ok v)
+    (hdict : (desc.map (·.1)).Nodup) (hpriv : ∀ kv ∈ desc, kv.1 ≠ "_network") :
+    ∃ ty vs, v = .struct ty vs ∧ Val.get vs "network" = some (.int cfg.networkId) := by
+  have hcfg' := hcfg
+  simp only [configOk, Bool.and_eq_true, Bool.not_eq_true'] at hcfg'
+  obtain ⟨⟨⟨⟨⟨⟨⟨⟨⟨⟨⟨⟨hS, henum⟩, -⟩, -⟩, -⟩, -⟩, -⟩, -⟩, -⟩, -⟩, hca⟩, -⟩, -⟩ := hcfg'
+  apply create_network_forced hS h hdict hpriv _ hca
+  intro ty d hr
+  have ht := configOk_type hcfg hr
+  simp only [typeOk, Bool.and_eq_true] at ht
+  obtain ⟨⟨⟨hcl, -⟩, -⟩, hfresh⟩ := ht
+  cases hc : classify cfg ty d "network" with
+  | member f hinted =>
+    cases hinted with
+    | true =>
+      simp only [hc, Bool.and_eq_true, beq_iff_eq] at hcl
+      cases hfind : cfg.schema.find "NetworkType" with
+      | none => simp [hfind] at henum
+      | some td =>
+        cases td with
+        | enum w sg bw ms =>
+          cases bw with
+          | false =>
+            cases hfm : freshMembers cfg.schema ty with
+            | error e => simp [hfm] at hfresh
+            | ok fresh =>
+              simp only [hfm] at hfresh
+              cases hg : Val.get fresh "network" with
+              | none => simp [hg] at hfresh
+              | some w0 =>
+                cases w0 with
+                | int i => exact ⟨f, "NetworkType", w, sg, ms, rfl, hcl.1, hcl.2, hfind, i, by simp⟩
+                | bytes b => simp [hg] at hfresh
+                | struct t fs => simp [hg] at hfresh
+                | arr l => simp [hg] at hfresh
+                | none => simp [hg] at hfresh
+          | true => simp [hfind] at henum
+        | int w sg => simp [hfind] at henum
+        | bytes n => simp [hfind] at henum
+        | struct sd => simp [hfind] at henum
+    | false => simp [hc] at hcl
+  | unknown => simp [hc] at hcl
+  | readOnly => simp [hc] at hcl
+  | shadow => simp [hc] at hcl
+
+open SymbolVerif.Generated.C10 in
+/-- the symbol configuration read from the sources on this run satisfies every side condition, on both networks -/
+theorem symbol_config_ok : ∀ id ∈ symbolNetworkIdentifiers, configOk (symbolConfig id) = true := by decide +kernel
+
+open SymbolVerif.Generated.C10 in
+/-- … and so does the nem configuration -/
+theorem nem_config_ok : ∀ id ∈ nemNetworkIdentifiers, configOk (nemConfig id) = true := by decide +kernel
+
+/-! ### non-vacuity: the theorems' hypotheses are met by concrete descriptors on the shipped configurations -/
+
+section Examples
+open SymbolVerif.Generated.C10
+
+/-- stand-ins for the primitives (the examples below do not depend on hash values) -/
+def examplePrims : Prims :=
+  { sha3_256 := fun b => b ++ zeros 32, ripemd160 := fun b => b.take 20, transform := fun _ b => b, validUtf8 := fun _ => true }
+
+def member? (r : Except E Val) (n : String) : Option Val :=
+  match r with
+  | .ok (.struct _ vs) => Val.get vs n
+  | _ => none
+
+def intMember (r : Except E Val) (n : String) (i : Int) : Bool :=
+  match member? r n with
+  | some (.int j) => i == j
+  | _ => false
+
+def rejected (r : Except E Val) : Bool :=
+  match r with
+  | .error _ => true
+  | .ok _ => false
+
+def mosaicsOf (r : Except E Val) : List Int :=
+  match member? r "mosaics" with
+  | some (.arr l) => l.filterMap fun e => match e with
+    | .struct _ fs => (match Val.get fs "mosaic_id" with | some (.int i) => some i | _ => none)
+    | _ => none
+  | _ => []
+
+def transfer : List (String × DVal) := [
+  ("type", .str "transfer_transaction_v1"), ("fee", .int 5), ("network", .str "mainnet"),
+  ("signer_public_key", .str "00112233445566778899AABBCCDDEEFF00112233445566778899aabbccddeeff"),
+  ("mosaics", .list [.dict [("mosaic_id", .int 9), ("amount", .int 1)], .dict [("amount", .int 2), ("mosaic_id", .int 3)]]),
+  ("message", .str "hi")]
+
+/-- symbol testnet: described values, str auto-encoding, forced network, type/version constants, canonical order
+    (autosort on) / described order (off), embedded entry point, id autofill, and each kind of rejection -/
+def symbolChecks : List Bool :=
+  let cfg := symbolConfig 152
+  let r := create examplePrims cfg true false transfer
+  let mosaicDefinition := create examplePrims cfg true true [("type", .str "mosaic_definition_transaction_v1"),
+    ("flags", .str "supply_mutable none revokable"), ("nonce", .int 7), ("id", .int 1)]
+  [ intMember r "fee" 5, intMember r "network" 152, intMember r "type" 16724, intMember r "version" 1,
+    intMember r "deadline" 0,
+    (match member? r "message" with | some (.bytes [104, 105]) => true | _ => false),
+    (match member? r "signer_public_key" with | some (.bytes b) => b.length == 32 && b.take 2 == [0x00, 0x11] | _ => false),
+    mosaicsOf r == [3, 9],
+    mosaicsOf (create examplePrims cfg false false transfer) == [9, 3],
+    intMember mosaicDefinition "flags" 9,
+    (match member? mosaicDefinition "id" with | some (.int i) => i != 1 | _ => false),
+    (match mosaicDefinition with | .ok (.struct "EmbeddedMosaicDefinitionTransactionV1" _) => true | _ => false),
+    rejected (create examplePrims cfg true false (transfer ++ [("fe", .int 1)])),
+    rejected (create examplePrims cfg true false (transfer ++ [("fee_computed", .int 1)])),
+    rejected (create examplePrims cfg true false [("type", .str "xtransfer_transaction_v1")]),
+    rejected (create examplePrims cfg true false [("fee", .int 1)]),
+    rejected (create examplePrims cfg true false [("type", .str "transfer_transaction_v1"), ("fee", .int (2 ^ 64))]),
+    rejected (create examplePrims cfg true false [("type", .str "transfer_transaction_v1"), ("fee", .int (-1))]),
+    rejected (create examplePrims cfg true false [("type", .str "account_key_link_transaction_v1"), ("link_action", .str "LINK")]),
+    !rejected (create examplePrims cfg true false [("type", .str "account_key_link_transaction_v1"), ("link_action", .str "link")]),
+    rejected (create examplePrims cfg true false [("type", .str "mosaic_definition_transaction_v1"), ("flags", .str "supply_mutable  revokable")]),
+    rejected (create examplePrims cfg true false [("type", .str "transfer_transaction_v1"), ("signer_public_key", .bytes (zeros 31))]),
+    -- findings: non-member attributes pass `hasattr`
+    !rejected (create examplePrims cfg true false (transfer ++ [("TYPE_HINTS", .dict [])])),
+    !rejected (create examplePrims cfg true false (transfer ++ [("serialize", .int 1)])),
+    intMember (create examplePrims cfg true false [("type", .str "transfer_transaction_v1"), ("_fee", .codec "Amount" (.int 7))]) "fee" 7,
+    -- a plain integer member is not range checked by create
+    intMember (create examplePrims cfg true false [("type", .str "transfer_transaction_v1"), ("version", .int 300)]) "version" 300 ]
+
+example : symbolChecks.all id = true := by decide +kernel
+
+/-- nem testnet: nested dict, SDK address object converted to its text form, transfer message hack, no embedded entry point -/
+def nemChecks : List Bool :=
+  let cfg := nemConfig 152
+  let r := create examplePrims cfg true false [("type", .str "transfer_transaction_v2"), ("amount", .int 10),
+    ("recipient_address", .sdk "Address" (zeros 25)),
+    ("message", .dict [("message_type", .str "plain"), ("message", .str "hi")])]
+  [ intMember r "amount" 10, intMember r "network" 152, intMember r "version" 2,
+    (match member? r "recipient_address" with | some (.bytes b) => b.length == 40 && b.all (· == 65) | _ => false),
+    (match member? r "message" with
+     | some (.struct "Message" fs) => (match Val.get fs "message" with | some (.bytes [104, 105]) => true | _ => false)
+     | _ => false),
+    rejected (create examplePrims cfg true true [("type", .str "transfer_transaction_v2")]),
+    rejected (create examplePrims cfg true false [("type", .str "transfer_transaction_v2"),
+      ("message", .dict [("message_typ", .str "plain")])]) ]
+
+example : nemChecks.all id = true := by decide +kernel
+
+end Examples
 
 end SymbolVerif.C10
